@@ -323,6 +323,41 @@ def check_fields(r) -> list[Fail]:
     elif ok.any() and np.max(np.abs(got[ok] - ref[ok])) > 1e-6:
         p = int(np.argmax(np.abs(got - ref) * ok))
         fails.append(Fail("aso:value-differs-from-definition" + (":weighted" if weighted else ""), f"point {p}: {got[p]:.6f} vs {ref[p]:.6f} ({nc} conformers, weights {w.round(3).tolist()})"))
+    if r.get("memfault") and not fails:
+        # the big (conformers x atoms x grid points) distance array cannot be allocated: the kernel raises MemoryError on its first call.
+        # Either that error reaches the caller, or - if the descriptor copes in some other way - the field is still the defined one
+        import molli.descriptor.gridbased as gb
+
+        real_xt = gb.molli_xt
+
+        class _XT:
+            def __init__(self):
+                self.raised = False
+
+            def __getattr__(self, nm):
+                fn = getattr(real_xt, nm)
+                if nm.startswith("cdist32") and not self.raised:
+                    def boom(*a, **k):
+                        self.raised = True
+                        raise MemoryError("injected: cannot allocate the distance array")
+                    return boom
+                return fn
+
+        gb.molli_xt = _XT()
+        try:
+            got_f = np.asarray(aso(ens, grid, weighted=weighted), dtype=float)
+        except MemoryError:
+            got_f = None
+        except Exception as e:
+            s = exc_sig(e)
+            if s is None:
+                raise
+            got_f = None
+            fails.append(Fail(f"aso-raises-after-allocation-failure:{s}", repr(e)[:300]))
+        finally:
+            gb.molli_xt = real_xt
+        if got_f is not None and (got_f.shape != ref.shape or (ok.any() and np.max(np.abs(got_f[ok] - ref[ok])) > 1e-6)):
+            fails.append(Fail("aso:value-differs-from-definition:after-allocation-failure", f"{int((np.abs(got_f - ref) * ok > 1e-6).sum()) if got_f.shape == ref.shape else '?'} of {int(ok.sum())} points differ"))
     # aeif: charge of the nearest atom if the point is inside any sphere
     d = np.sqrt(d2)
     order = np.sort(d, axis=1)
@@ -385,7 +420,7 @@ def strat_desc(tier):
     return st.fixed_dictionaries({
         "seed": st.integers(0, 10**6), "n_atoms": st.one_of(st.integers(2, 12), st.integers(2, 40)), "n_conf": st.integers(1, 4), "spread": st.sampled_from([1.5, 3.0, 6.0]),
         "gpad": st.sampled_from([0.0, 1.0, 3.0]), "gspacing": st.sampled_from([1.0, 0.7, 1.5, 2.5, 4.0]), "cut": st.sampled_from([2.0, 1.0, 3.5, 0.5]), "eps": st.sampled_from([0.5, 0.0, 0.1, 1.0]),
-        "weighted": st.booleans(), "grid_kind": st.sampled_from([0, 0, 1, 2]), "zero_w": st.sampled_from([0, 0, 1, 2, 5, 6]),
+        "weighted": st.booleans(), "grid_kind": st.sampled_from([0, 0, 1, 2]), "zero_w": st.sampled_from([0, 0, 1, 2, 5, 6]), "memfault": st.sampled_from([False, False, True]),
     })
 
 
